@@ -31,7 +31,7 @@ type cX struct {
 	funcs     map[string]*cfunc
 	order     []string
 	goCB      map[string]bool
-	checkView bool // luaCheckView returns ctx.nestedView (fact from the Go side)
+	checkView bool            // luaCheckView returns ctx.nestedView (fact from the Go side)
 	trivial   map[string]bool // Go callbacks whose process is a single ret
 	out       *Output
 }
